@@ -1,6 +1,117 @@
 import DaskModel.DriverLib
+import DaskModel.Model.Chunks
 open Dask
+open Dask.Chunks
 
-def table : List (String × Handler) := []
+/-! Line-protocol handlers of group `chunks` (C23, C24, C27, C34). -/
+
+/-- spec: `5` | `none` | `auto` | `(bytes 1024)` | `(t 3 2 1)` -/
+def decSpec : SExp → Option Spec
+  | .int i => some (.int i)
+  | .sym "none" => some .none
+  | .sym "auto" => some .auto
+  | .list [.sym "f", i] => do pure (.flt (← i.toInt?))
+  | .list [.sym "bytes", n] => do pure (.bytes (← n.toNat?))
+  | .list (.sym "t" :: xs) => do pure (.tup (← xs.mapM SExp.toInt?))
+  | _ => none
+
+def decTop : SExp → Option Top
+  | .list [.sym "scalar", s] => do pure (.scalar (← decSpec s))
+  | .list (.sym "dict" :: kvs) => do
+    let kv ← kvs.mapM (fun e => match e with
+      | .list [k, v] => do pure ((← k.toNat?), (← decSpec v))
+      | _ => none)
+    pure (.dict kv)
+  | .list (.sym "seq" :: cs) => do pure (.seq (← cs.mapM decSpec))
+  | _ => none
+
+def encErr : Err → SExp
+  | .value => .list [.sym "raised", .sym "ValueError"]
+  | .zeroDiv => .list [.sym "raised", .sym "ZeroDivisionError"]
+  | .auto => .list [.sym "raised", .sym "auto"]
+  | .unsupported => .list [.sym "unsupported"]
+
+def encIntss (xs : List (List Int)) : SExp := .list (xs.map SExp.ofInts)
+
+/-- `(normalize top (shape…) limit autores)` ; `autores` = `none` | `(some spec…)` -/
+def hNormalize : Handler := handler fun args =>
+  match args with
+  | [top, shape, limit, ar] => do
+    let top ← decTop top
+    let shape ← shape.toNats?
+    let limit ← limit.toOptInt?
+    let ar ← match ar with
+      | .sym "none" => some none
+      | .list (.sym "some" :: cs) => do pure (some (← cs.mapM decSpec))
+      | _ => none
+    match normalize top shape (limit.map Int.toNat) ar with
+    | .ok r => pure (.list [.sym "ok", encIntss r])
+    | .error e => pure (encErr e)
+  | _ => none
+
+def hBlockdims : Handler := handler fun args =>
+  match args with
+  | [d, bd] => do
+    match blockdims1 (← d.toNat?) (← bd.toInt?) with
+    | .ok r => pure (.list [.sym "ok", SExp.ofInts r])
+    | .error e => pure (encErr e)
+  | _ => none
+
+def encPiece (p : Piece) : SExp := SExp.ofNats [p.idx, p.start, p.stop]
+def encPlan (pl : List (List Piece)) : SExp := .list (pl.map (fun g => .list (g.map encPiece)))
+
+def hIntersect : Handler := handler fun args =>
+  match args with
+  | [old, new] => do
+    match intersect1d (← old.toNats?) (← new.toNats?) with
+    | some r => pure (.list [.sym "ok", encPlan r])
+    | none => pure (.list [.sym "unsupported"])
+  | _ => none
+
+def hOldToNew : Handler := handler fun args =>
+  match args with
+  | [old, new] => do
+    match oldToNew (← old.toNatss?) (← new.toNatss?) with
+    | some r => pure (.list [.sym "ok", .list (r.map encPlan)])
+    | none => pure (.list [.sym "unsupported"])
+  | _ => none
+
+/-- `(rechunk1d (old…) (new…) (xs…))` ↦ the new blocks -/
+def hRechunk1d : Handler := handler fun args =>
+  match args with
+  | [old, new, xs] => do
+    match rechunk1d (← old.toNats?) (← new.toNats?) (← xs.toInts?) with
+    | some r => pure (.list [.sym "ok", encIntss r])
+    | none => pure (.list [.sym "unsupported"])
+  | _ => none
+
+def hDivide : Handler := handler fun args =>
+  match args with
+  | [cs, w] => do
+    match divideToWidth (← cs.toNats?) (← w.toNat?) with
+    | some r => pure (.list [.sym "ok", SExp.ofNats r])
+    | none => pure (.list [.sym "raised"])
+  | _ => none
+
+def hMergeNum : Handler := handler fun args =>
+  match args with
+  | [cs, n] => do
+    match mergeToNumber (← cs.toNats?) (← n.toNat?) with
+    | some r => pure (.list [.sym "ok", SExp.ofNats r])
+    | none => pure (.list [.sym "unsupported"])
+  | _ => none
+
+def hGraphSize : Handler := handler fun args =>
+  match args with
+  | [old, new] => do
+    let o ← old.toNatss?
+    let n ← new.toNatss?
+    pure (SExp.ofNats [estimateGraphSize o n, numberOfBlocks o, numberOfBlocks n, largestBlockSize o, largestBlockSize n])
+  | _ => none
+
+def table : List (String × Handler) := [
+  ("normalize", hNormalize), ("blockdims", hBlockdims), ("intersect1d", hIntersect),
+  ("old_to_new", hOldToNew), ("rechunk1d", hRechunk1d), ("divide_to_width", hDivide),
+  ("merge_to_number", hMergeNum), ("graph_size", hGraphSize)]
 
 def main : IO Unit := runDriver table
